@@ -4,9 +4,10 @@ use libfuzzer_sys::fuzz_target;
 use vcore::fuzzdec;
 
 fuzz_target!(|data: &[u8]| {
+    fuzzdec::init();
     let case = fuzzdec::c01_case(data);
     if let Some(f) = fuzzdec::run_c01(&case) {
         fuzzdec::report("C01", &case, &f);
-        panic!("C01 violated: {}: {}", f.sig, f.msg);
+        fuzzdec::fail("C01", &f);
     }
 });
